@@ -3,7 +3,9 @@
 (* One stepwise session of an SD scenario and its channels (C09).          *)
 (*                                                                         *)
 (* Reference model: constant k (scenario value K0), flow f = k, stock s    *)
-(* with s(start) = 0 and s(t+dt) = s(t) + dt*f(t).  Times and the stock    *)
+(* with s(start) = 0 and s(t+dt) = s(t) + dt*f(t), stock u with the same   *)
+(* flow whose initial value is the constant: u(start) = k(start).  Times   *)
+(* and the stocks                                                          *)
 (* are kept in quarter units (t4 = 4*t, s4 = 4*s) so that dt in            *)
 (* {1, 1/2, 1/4} stays integral.                                           *)
 (* The session is a clock: each step reports the requested equations at    *)
@@ -22,30 +24,33 @@ CONSTANTS Start4, Dt4, N,     \* run spec in quarter units: stop = Start4 + N*Dt
           K0, KVals,          \* scenario constant, menu for step settings (0 = none)
           Ops, L
 
-VARIABLES i, k, s4, rlog, hist
-vars == <<i, k, s4, rlog, hist>>
+VARIABLES i, k, s4, u4, rlog, hist
+vars == <<i, k, s4, u4, rlog, hist>>
 
-Row(j, sv, kv) == [t4 |-> Start4 + j * Dt4, s4 |-> sv, k |-> kv]
+Row(j, sv, uv, kv) == [t4 |-> Start4 + j * Dt4, s4 |-> sv, u4 |-> uv, k |-> kv]
 \* n steps with the same settings; beyond the stop time a step reports nothing and the clock stays
-RECURSIVE Take(_, _, _, _, _)
-Take(n, set, ii, kk, ss) ==
-    IF n = 0 THEN [i |-> ii, k |-> kk, s4 |-> ss, rows |-> <<>>]
-    ELSE IF ii > N THEN LET r == Take(n - 1, set, ii, kk, ss) IN [r EXCEPT !.rows = << [msg |-> "Stoptime reached"] >> \o @]
+RECURSIVE Take(_, _, _, _, _, _)
+Take(n, set, ii, kk, ss, uu) ==
+    IF n = 0 THEN [i |-> ii, k |-> kk, s4 |-> ss, u4 |-> uu, rows |-> <<>>]
+    ELSE IF ii > N THEN LET r == Take(n - 1, set, ii, kk, ss, uu) IN [r EXCEPT !.rows = << [msg |-> "Stoptime reached"] >> \o @]
     ELSE LET k2 == IF set > 0 THEN set ELSE kk
-             r == Take(n - 1, set, ii + 1, k2, ss + Dt4 * k2)
-         IN [r EXCEPT !.rows = << Row(ii, ss, k2) >> \o @]
+             u2 == IF ii = 0 THEN 4 * k2 ELSE uu          \* the initial value of u is the constant in force at the start time
+             r == Take(n - 1, set, ii + 1, k2, ss + Dt4 * k2, u2 + Dt4 * k2)
+         IN [r EXCEPT !.rows = << Row(ii, ss, u2, k2) >> \o @]
 Real(rows) == SelectSeq(rows, LAMBDA r : "t4" \in DOMAIN r)
 Do(op, n, set) ==
-    LET r == Take(n, set, i, k, s4) IN
-    /\ i' = r.i /\ k' = r.k /\ s4' = r.s4
+    LET r == Take(n, set, i, k, s4, u4) IN
+    /\ i' = r.i /\ k' = r.k /\ s4' = r.s4 /\ u4' = r.u4
     /\ rlog' = rlog \o Real(r.rows)
     /\ hist' = Append(hist, [op |-> op, n |-> n, set |-> set, rows |-> r.rows, log |-> rlog'])
 
 Step(set) == "Step" \in Ops /\ i <= N + 1 /\ Do("Step", 1, set)
 Steps(n, set) == "Steps" \in Ops /\ i <= N /\ Do("Steps", n, set)
 Stream(set) == "Stream" \in Ops /\ i <= N /\ Do("Stream", N + 1 - i, set)      \* until the stop time is reached
-Init == i = 0 /\ k = K0 /\ s4 = 0 /\ rlog = <<>> /\ hist = <<>>
-Next == (\E set \in KVals : Step(set)) \/ (\E n \in {2, 3}, set \in KVals : Steps(n, set)) \/ (\E set \in KVals : Stream(set))
+\* a batch run of the same scenario on the same bptk object before the session is begun: changes nothing
+Batch == "Batch" \in Ops /\ hist = <<>> /\ Do("Batch", 0, 0)
+Init == i = 0 /\ k = K0 /\ s4 = 0 /\ u4 = 0 /\ rlog = <<>> /\ hist = <<>>
+Next == Batch \/ (\E set \in KVals : Step(set)) \/ (\E n \in {2, 3}, set \in KVals : Steps(n, set)) \/ (\E set \in KVals : Stream(set))
 Spec == Init /\ [][Next]_vars
 
 \* what was reported is never changed afterwards: settings act on later steps only
@@ -55,7 +60,9 @@ OnGrid == \A j \in 1..Len(rlog) : rlog[j].t4 = Start4 + (j - 1) * Dt4
 WithinRun == Len(rlog) <= N + 1
 \* the stock is the Euler integral of the constant that was in force on each interval
 Euler == \A j \in 1..(Len(rlog) - 1) : rlog[j + 1].s4 = rlog[j].s4 + Dt4 * rlog[j].k
-View == <<i, k, s4, rlog>>
+EulerU == \A j \in 1..(Len(rlog) - 1) : rlog[j + 1].u4 = rlog[j].u4 + Dt4 * rlog[j].k
+InitialU == rlog # <<>> => rlog[1].u4 = 4 * rlog[1].k
+View == <<i, k, s4, u4, rlog, hist = <<>> >>
 Bound == Len(hist) <= L
 Emit == (Len(hist) = L \/ i > N) => PrintT(ToJson(hist))
 =============================================================================
